@@ -616,8 +616,9 @@ class C03(Prop):
     consts = [("oldRangeBehavior", "NV_OLD_RANGE"), ("switchCaseSize", "SWITCH_CASE_SIZE"),
               ("mapHashTableSize", "MAP_HASH_TABLE_SIZE"), ("mapFillPercent", "FILL_PERCENT"),
               ("mapMaxTableSize", "MAX_TABLE_SIZE"), ("mapHashOf4096", "MAP_POINTER_HASH(4096)"),
-              ("macroMarks", "MARKS"), ("macroNargs", "NARGS")]
-    const_headers = ["lib/efuns/options.h", "src/interpret.h", "lib/lpc/mapping.h", "lib/lpc/lex.h"]
+              ("macroMarks", "MARKS"), ("macroNargs", "NARGS"),
+              ("typeAny", "TYPE_ANY"), ("typeNumber", "TYPE_NUMBER"), ("typeString", "TYPE_STRING"), ("typeReal", "TYPE_REAL")]
+    const_headers = ["lib/efuns/options.h", "src/interpret.h", "lib/lpc/mapping.h", "lib/lpc/lex.h", "lib/lpc/compiler.h"]
     const_prelude = "#ifdef OLD_RANGE_BEHAVIOR\n#define NV_OLD_RANGE 1\n#else\n#define NV_OLD_RANGE 0\n#endif\n"
     quick_n = 1200
     thorough_n = 6000
@@ -656,7 +657,24 @@ class C03(Prop):
                    "`-=` on char lvalues (documented as supported, raises 'Bad left type to -=')",
                    "open findings (language definition debatable): num-opeq-real, addeq-num-str, optimistic-types"]
 
+    # families that exercise the code behind each regenerated tie: when a tie breaks, the search stage draws 2/3 of its programs
+    # from them, so that a harmful change behind the broken tie yields a failing input and a harmless one a report that names the site
+    SITE_FAMS = {"guard:grammar-rewrites": ["fam_rewrite", "fam_binop", "fam_loop"], "guard:range_from_end": ["fam_range", "fam_lvalue", "fam_index"],
+                 "guard:F_INDEX": ["fam_index", "fam_lvalue", "fam_loop"],
+                 "guard:handle_define": ["fam_macrosubst", "fam_mdef", "fam_macro"],
+                 "guard:add_array": ["fam_selfop", "fam_arrtrace", "fam_assignop", "fam_loop"]}
+    broken_sites = ()
+
     def gen_extra(self, ctx, bdir):
+        from nvlib import extract as X
+        try:
+            self.broken_sites = ()
+            return self.gen_extra_inner(ctx, bdir)
+        except X.TieBroken as e:
+            self.broken_sites = (e.site,)
+            raise
+
+    def gen_extra_inner(self, ctx, bdir):
         """T4-style tie: the condition under which handle_define (lib/lpc/lex.c) replaces a body identifier by the marker of
         parameter n is transcribed into `NV.Gen.C03.macroParamMatch`; Props7.lean proves that it is string equality."""
         import re
@@ -683,7 +701,7 @@ class C03(Prop):
                 atoms.append("eqUpTo %s" % q.group(1))
                 continue
             raise X.TieBroken("guard:handle_define", "atom outside the guard grammar: `%s` in `%s`" % (at, cond))
-        guards = self.gen_index_guards(X) + self.gen_range_from_end(X) + self.gen_add_array_guards(X)
+        guards = self.gen_index_guards(X) + self.gen_range_from_end(X) + self.gen_add_array_guards(X) + self.gen_rewrite_guards(X)
         return guards + ("\n/-- C (lib/lpc/lex.c handle_define): a body identifier of length `idlen` is replaced by parameter n iff\n"
                 "    `%s`  (l = strlen (args[n]); `eqUpTo k` = strncmp (args[n], ids, k) == 0) -/\n"
                 "def macroParamMatch (l idlen : Nat) (eqUpTo : Nat → Bool) : Bool := %s\n" % (cond.replace("-/", "- /"), " && ".join(atoms)))
@@ -785,8 +803,8 @@ class C03(Prop):
                 if not re.fullmatch(r"(to|from) = range_from_end \((len|v->size), \1\)", st):
                     raise X.TieBroken("guard:range_from_end", "%s: `<` bound computed by `%s` instead of range_from_end ()" % (fn, st))
                 sites.append((fn, g.group(1), st))
-        if len(sites) != 9:
-            raise X.TieBroken("guard:range_from_end", "expected 9 `<` sites in f_range / f_extract_range, found %d" % len(sites))
+        if not sites:
+            raise X.TieBroken("guard:range_from_end", "no `<` site found in f_range / f_extract_range")
         return ("\n/-- two's complement int64 wrap-around of a C operation -/\ndef w64 (n : Int) : Int := (n + 2 ^ 63) %% 2 ^ 64 - 2 ^ 63\n"
                 "\n/-- C (lib/lpc/operator.c range_from_end): `if (%s) return %s; return %s;` - every C int64 operation is `w64`;\n"
                 "    used at all %d `<` sites of f_range / f_extract_range -/\n"
@@ -877,6 +895,57 @@ class C03(Prop):
             txt += ("\n/-- C (lib/lpc/array.c add_array): `%s` - %s (same = `p == r`, pref / rref = the reference counts at that point) -/\n"
                     "def addArray%s (same : Bool) (pref rref : Nat) : Bool := %s\n" % (c, what, name, lean))
         return txt
+
+    def gen_rewrite_guards(self, X):
+        """T4: the conditions under which lib/lpc/grammar.y applies its typed peephole rewrites (`0 + X -> X`, `X + 0 -> X`,
+        `0 - X -> -X`, `x == 0 -> !x` both ways, `if (x != 0) -> if (x)` both ways), transcribed into `NV.Gen.C03.rw*`:
+        (zero = the constant operand is the literal 0, ty = the static type code of the OTHER operand).  `Frontend.rwBin` /
+        `rwIfCond` use them; `rw_guards_int` (Props10.lean) proves that each fires only for an operand typed TYPE_NUMBER - the
+        hypothesis of the value-level soundness theorems `rewrite_*_sound`.  The rules are located by what they produce."""
+        import re
+        src = open(os.path.join(E.REPO, "lib/lpc/grammar.y")).read()
+
+        def region(a, b):
+            i = src.find(a)
+            j = src.find(b, i + 1) if i >= 0 else -1
+            if i < 0 or j < 0:
+                raise X.TieBroken("guard:grammar-rewrites", "rule `%s` .. `%s` not found in lib/lpc/grammar.y" % (a, b))
+            return src[i:j]
+        specs = [
+            ("rwAddZeroL", region("expr0 '+' expr0", "expr0 '-' expr0"), r"if \(([^{}]*?)\)\s*\{\s*\$\$ = \$3;\s*break;\s*\}", "$1", "$3", "0 + X -> X"),
+            ("rwAddZeroR", region("expr0 '+' expr0", "expr0 '-' expr0"), r"if \(([^{}]*?)\)\s*\{\s*\$\$ = \$1;\s*break;\s*\}", "$3", "$1", "X + 0 -> X"),
+            ("rwSubZeroL", region("expr0 '-' expr0", "expr0 '*' expr0"), r"if \(([^{}]*?)\)\s*\{\s*CREATE_UNARY_OP\(\$\$, F_NEGATE, \$3->type, \$3\);", "$1", "$3", "0 - X -> -X"),
+            ("rwEqZeroL", region("expr0 L_EQ expr0", "expr0 L_NE expr0"), r"if \(([^{}]*?)\)\s*\{\s*CREATE_UNARY_OP\(\$\$, F_NOT, TYPE_NUMBER, \$3\);", "$1", "$3", "0 == x -> !x"),
+            ("rwEqZeroR", region("expr0 L_EQ expr0", "expr0 L_NE expr0"), r"if \(([^{}]*?)\)\s*\{\s*CREATE_UNARY_OP\(\$\$, F_NOT, TYPE_NUMBER, \$1\);", "$3", "$1", "x == 0 -> !x"),
+            ("rwIfNeZeroR", region("L_IF '(' comma_expr ')' statement optional_else_part", "CREATE_IF($$, $3, $5, $6);"), r"if \(([^{};]*?)\)\s*\$3 = \$3->l\.expr;", "$3->r.expr", "$3->l.expr", "if (x != 0) -> if (x)"),
+            ("rwIfNeZeroL", region("L_IF '(' comma_expr ')' statement optional_else_part", "CREATE_IF($$, $3, $5, $6);"), r"if \(([^{};]*?)\)\s*\$3 = \$3->r\.expr;", "$3->l.expr", "$3->r.expr", "if (0 != x) -> if (x)"),
+        ]
+        out = ""
+        for name, reg, pat, zop, top, what in specs:
+            g = re.search(pat, reg, re.S)
+            if not g:
+                raise X.TieBroken("guard:grammar-rewrites", "rewrite `%s`: the statement it produces was not found behind an `if (..)`" % what)
+            cond = " ".join(g.group(1).split())
+            atoms = []
+            for at in [a.strip() for a in cond.split("&&")]:
+                z = re.fullmatch(r"(\$\d(?:->[lr]\.expr)?)->v\.number == 0", at) or re.fullmatch(r"IS_NODE\((\$\d(?:->[lr]\.expr)?), NODE_NUMBER, 0\)", at)
+                if z:
+                    if z.group(1) != zop:
+                        raise X.TieBroken("guard:grammar-rewrites", "rewrite `%s`: the zero test is on %s, expected %s (`%s`)" % (what, z.group(1), zop, cond))
+                    atoms.append("zero")
+                    continue
+                t = re.fullmatch(r"(\$\d(?:->[lr]\.expr)?)->type (==|!=) TYPE_(NUMBER|REAL|STRING|ANY)", at)
+                if t:
+                    if t.group(1) != top:
+                        raise X.TieBroken("guard:grammar-rewrites", "rewrite `%s`: the type test is on %s, expected %s (`%s`)" % (what, t.group(1), top, cond))
+                    atoms.append("decide (ty %s type%s)" % ("=" if t.group(2) == "==" else "≠", t.group(3).capitalize()))
+                    continue
+                raise X.TieBroken("guard:grammar-rewrites", "rewrite `%s`: atom outside the guard grammar: `%s` in `%s`" % (what, at, cond))
+            if "zero" not in atoms:
+                raise X.TieBroken("guard:grammar-rewrites", "rewrite `%s`: no test for the literal 0 in `%s`" % (what, cond))
+            out += ("\n/-- C (lib/lpc/grammar.y, rewrite `%s`): `%s` -/\ndef %s (zero : Bool) (ty : Nat) : Bool := %s\n"
+                    % (what, cond.replace("-/", "- /"), name, " && ".join(atoms)))
+        return out
 
     @staticmethod
     def _balanced(t):
@@ -2133,8 +2202,9 @@ class C03(Prop):
 
     def generate(self, rng, n, tier):
         out = []
+        focus = [f for site in self.broken_sites for f in self.SITE_FAMS.get(site, [])] if tier == "search" else []
         for k in range(n):
-            fam = rng.weighted(self.FAMS)
+            fam = rng.choice(focus) if focus and rng.chance(2, 3) else rng.weighted(self.FAMS)
             out.append(getattr(self, fam)(rng, "g%d" % k))
         return out
 
@@ -2243,7 +2313,7 @@ PROP.theorems = ["NV.C03." + t for t in (
     "HT.mapping_lookup_after_insert", "HT.empty_refines",
     "Macro.macroParamMatch_iff", "Macro.matchParam_eq_paramOf", "Macro.specGo_eq", "Macro.scan_eq", "Macro.goRaw_blank",
     "Macro.macro_definition_agrees", "Macro.macro_expansion_agrees",
-    "index_guard_buf", "index_guard_str", "index_guard_arr", "Heap.addArray_refines", "Heap.addArray_value",
+    "index_guard_buf", "index_guard_str", "index_guard_arr", "Heap.addArray_refines", "Heap.addArray_value", "rw_guards_int", "tyCode_int",
     "mem_sortEntries", "pairwise_sortEntries", "sortedT_of_pairwise", "mem_strEntries", "string_switch_agrees",
     "wrap_id", "wrap_range", "tdiv_range", "tmod_range", "idiv_eq", "imod_eq")]
 PROP.witness_theorems = ["NV.C03." + t for t in (
